@@ -598,6 +598,9 @@ func RunCommon(prop string, c *run.Ctx, s *kit.Summary, children func([]Job, int
 	st.Diff(c.Driver, s)
 	if prop == "C02" {
 		pumpStream(c, s, r)
+		if c.Replay == "" {
+			RaceRun("./cmd/c02", c, s, r)
+		}
 	}
 }
 
